@@ -97,6 +97,8 @@ var mutantCatalogue = map[string][]mutant{
 		{Name: "rollback forgets the replaced writes", File: "risc/app.go", Old: "\t\tfor _, overwritten := range ctx.transactionOverwritten[register] {\n\t\t\tif overwritten.sequenceID < sequenceID && (tu.sequenceID >= sequenceID || overwritten.sequenceID > tu.sequenceID) {\n\t\t\t\ttu = overwritten\n\t\t\t}\n\t\t}\n", New: ""},
 	},
 	"C07": {
+		{Name: "decode fetches the instruction at index len", File: "proc/mvp7-0/du.go", Old: "if int(pc)/4 >= len(app.Instructions) {", New: "if int(pc)/4 > len(app.Instructions) {"},
+		{Name: "write-back stores at index len (7.0)", File: "proc/mvp7-0/mmu.go", Old: "\t\tif int(addr)+i >= len(u.ctx.Memory) {\n\t\t\treturn", New: "\t\tif int(addr)+i > len(u.ctx.Memory) {\n\t\t\treturn"},
 		{Name: "ret drain steps only the idle units", File: "proc/mvp6-1/cpu.go", Old: "\t\t\t\t\tif !eu.isEmpty() {\n\t\t\t\t\t\tresp := eu.Cycle", New: "\t\t\t\t\tif eu.isEmpty() {\n\t\t\t\t\t\tresp := eu.Cycle"},
 		{Name: "per-cycle branch flag never lowered", File: "proc/mvp6-1/cu.go", Old: "\tu.pushedBranchInCurrentCycle = false\n", New: ""},
 		{Name: "jump resolution never ends the decode stall", File: "proc/mvp6-1/bu.go", Old: "u.du.notifyBranchResolved()", New: "_ = u"},
@@ -192,6 +194,8 @@ var mutantCatalogue = map[string][]mutant{
 		{Name: "pending write deleted outright", File: "risc/app.go", Old: "\t\tctx.PendingWriteRegisters[register]--\n\t\tif ctx.PendingWriteRegisters[register] <= 0 {\n\t\t\tdelete(ctx.PendingWriteRegisters, register)\n\t\t}\n\t}\n}\n\n// IsWriteDataHazard", New: "\t\tdelete(ctx.PendingWriteRegisters, register)\n\t}\n}\n\n// IsWriteDataHazard"},
 	},
 	"C05": {
+		{Name: "line fill one byte too long", File: "proc/mvp6-1/mmu.go", Old: "for i := 0; i < l3CacheLineSize; i++ {\n\t\tif int(addr)+i < 0", New: "for i := 0; i <= l3CacheLineSize; i++ {\n\t\tif int(addr)+i < 0"},
+		{Name: "write-back stores at index len", File: "proc/mvp6-2/mmu.go", Old: "\t\tif int(addr)+i >= len(u.ctx.Memory) {\n\t\t\treturn", New: "\t\tif int(addr)+i > len(u.ctx.Memory) {\n\t\t\treturn"},
 		{Name: "L3 dirty flag never raised", File: "proc/mvp8-0/msi.go", Old: "\tm.l3Write[addr] = true\n", New: ""},
 		{Name: "dirty L3 lines dropped, clean ones written back", File: "proc/mvp8-0/msi.go", Old: "if m.l3Write[alignedAddr] {", New: "if !m.l3Write[alignedAddr] {"},
 		{Name: "load miss taken for a hit", File: "proc/mvp6-2/eu.go", Old: "} else if exists {", New: "} else if !exists {"},
